@@ -90,6 +90,9 @@ def check_measure(ctx, psi, n, keep, seed, form=0):
     nq = _nq()
     keep = tuple(keep)
     arg = keep if form == 0 else (list(keep) if form == 1 else (keep[0] if len(keep) == 1 else keep))
+    if form == 1 and (n + len(keep)) % 2 == 0:
+        arg = np.array(keep[::-1])[::-1]  # an index array that is a negative-stride view (logical content = keep)
+        ctx.label('index as reversed-view array')
     layout = ['C', 'strided', 'readonly'][((seed if isinstance(seed, int) else 0) + len(keep) + form + n) % 3]  # a slice of a larger array / a read-only array holds the same state
     ctx.label('state layout=' + layout)
     psi_in = ref.with_layout(psi, layout)
